@@ -518,6 +518,23 @@ impl Model {
         }
     }
 
+    /// Did the input of a map_ref (looking through further map_refs) ever carry a cutoff that
+    /// can suppress unequal values?
+    fn view_input_had_noneq_cutoff(&self, src: Hid) -> bool {
+        let mut cur = src;
+        for _ in 0..64 {
+            let n = &self.nodes[cur];
+            if n.had_noneq_cutoff || !n.cutoff.only_suppresses_equal() {
+                return true;
+            }
+            match &n.rk {
+                RK::MapRef { src, .. } | RK::MapRefQ { src } => cur = *src,
+                _ => return false,
+            }
+        }
+        false
+    }
+
     fn cached_i(&self, h: Hid) -> Option<i64> {
         self.val(h).map(|v| v.i())
     }
@@ -617,8 +634,17 @@ impl Model {
                     let c = !self.nodes[h].cutoff.cuts(o, new);
                     if !c {
                         maybe = true;
+                        c
+                    } else if self.view_input_had_noneq_cutoff(*src) {
+                        // the input stores a result even when its cutoff suppresses it: if that
+                        // cutoff can suppress unequal values, the difference to what this view
+                        // last showed may stem from a suppressed change, which dependants need
+                        // not hear of (they may)
+                        maybe = true;
+                        false
+                    } else {
+                        c
                     }
-                    c
                 }
             }
             (_, Some(o)) => !self.nodes[h].cutoff.cuts(o, new),
